@@ -1,5 +1,4 @@
 PROP = dict(
-    unclaimed=True,
     module="M3d.Props.C20",
     corr=dict(quick=600, thorough=5000),
     gen=[],
@@ -8,7 +7,7 @@ PROP = dict(
         "varq/varf/rvarf: variance_unbiased_form; map/img: coords_row_major, each_pixel_once, image_independent_of_schedule, "
         "constant_stream_mean, uniform_emitter_radiance; castq/camf: uncast_cast_id, matrix_inverse_correct; dircam: directional_camera_contains; "
         "treeq/treef/joinf/bvhf: joined_cast_is_nearest, filtered_cast_sound, bvh_cast_is_nearest; "
-        "treeq/treef/xprim: translated_cast_conj, matrix_cast_conj, matrix_normal_conformal"
+        "treeq/treef/xprim: translated_cast_conj, matrix_cast_conj, matrix_normal_conformal; litf: lit_matte_surface_radiance"
     ),
     rule=(
         "per seed: estimateColor of RecursiveRayTracer and BidirPathTracer through the verif hook with a scripted radiance stream "
@@ -19,7 +18,7 @@ PROP = dict(
         "on random boxes for seven fields of view; random wrapper trees (Joined/Filtered/Translate/MatrixMultiply/Rotate/Scale) over probe leaves whose "
         "answer is an affine function of the ray they receive (exact over Q with monomial power-of-two matrices, bit-for-bit over doubles otherwise); "
         "JoinedObject and BVHToObject over real Sphere/Rect/Triangle parts incl. duplicates; wrappers of real primitives vs the transformed primitive built "
-        "directly (dyadic data); whole images (RayCaster, RecursiveRayTracer, BidirPathTracer) of closed uniform emitters at GOMAXPROCS 1..16. "
+        "directly (dyadic data); per-pixel RayCaster and RecursiveRayTracer(MaxDepth 0) values of lit matte spheres/boxes/triangles with and without occluders and 0-3 point lights (primitive Cast answers as oracle data, everything else recomputed bit-for-bit); whole images (RayCaster, RecursiveRayTracer, BidirPathTracer) of closed uniform emitters at GOMAXPROCS 1..16. "
         "distinct = distinct operation lines; non-trivial = early stop taken, >1 worker received, hit found, matrix wrapper present (see #stat counters)"
     ),
     trusted=[
@@ -47,7 +46,7 @@ PROP = dict(
     level_note=(
         "Proved about lean/M3d/Model/Render.lean; the correspondence makes the code agree with the model on the generated cases only. Trusted: Lean kernel, "
         "propext/Classical.choice/Quot.sound, the Go harness and native driver, libm, the Go runtime's channel semantics. Not covered: BPT path weighting, "
-        "Monte-Carlo convergence of non-constant scenes (statistical), single-lit-matte-surface closed form, image I/O. Two genuine defects were found by this "
+        "Monte-Carlo convergence of non-constant scenes (statistical; recursion with non-zero BSDF is modelled but tied only at MaxDepth 0 and for zero-BSDF emitters), image I/O. Two genuine defects were found by this "
         "check and repaired in /repo (estimateColor count after early stop; DirectionalCamera field of view)."
     ),
 )
